@@ -1,14 +1,17 @@
 """C18 - reopen_output and reset_flw switch files without losing or reordering records."""
 import gen_flw as g
 
-CLAIM = ("Decided per explored history by an executable oracle defined in Coq (O_Stream.oracle_tiles: the plain files left in the "
-         "directory - renamed files, old and new families - tile the sequence of logged bytes: every record exactly once, inside each "
-         "file in logging order) applied to the implementation's directory after shutdown, together with the correspondence check "
-         "(model = implementation after every step, which pins down which file each record went to: before an external rename into "
-         "the renamed file incl. a buffered tail, after reopen_output into a new file at the original path, after reset_flw into the "
-         "new family). Proved in Coq: soundness of the tiling oracle (C18_tiles_sound). An invariant proof over all such histories is "
-         "not finished: partial.")
-THEOREMS = ["C18_tiles_sound"]
+CLAIM = ('Proved in Coq for the model, configurations without rotation, any buffer capacity, EVERY history of writes and '
+         'flushes: after an external rename (or removal) of the log file and reopen_output, the renamed file holds exactly what '
+         'was logged before - including what was still buffered -, the file at the original path exactly what was logged '
+         'afterwards, nothing else exists (C18_reopen_switches); after a reset to another log file the old file holds the '
+         'records before, the new one those after (C18_reset_switches); for any alternation of such switches to fresh names the '
+         'files tile the logged stream in switch order (C18_switches_tile). With rotation, resets between rotation settings and '
+         'returns to an earlier file the property is decided per explored history by executable oracles defined in Coq applied '
+         "to the implementation's directory after shutdown (the plain files tile the logged bytes - C18_tiles_sound -, or merge "
+         'to them in order when a file was revisited; what was logged since the last switch is at the end of the newly specified '
+         'file or family) together with the correspondence check (model = implementation after every step): partial. ')
+THEOREMS = ["C18_reopen_switches", "C18_reset_switches", "C18_switches_tile", "C18_tiles_sound"]
 TRUSTED = ["modelled, not verified: Unix semantics of rename/unlink with an open file (inode model), BufWriter flush-on-drop"]
 ASSUMPTIONS = ["synchronous write modes; a reset onto the same path without append truncates (documented) and is not generated - with append it is",
                "records carry distinct payloads, so a tiling is unambiguous"]
